@@ -84,6 +84,21 @@ CLAIMED = {
         'technique': 'Lean 4 proof (list/arith lemmas) + differential correspondence against the model and NumPy',
         'design_ref': '§5 C13',
     },
+    'C16': {
+        'text': ('PARTIAL.  Lean theorems: the rotation matrix of the source is the Z-Y-Z Euler rotation Rz(phi)·Ry(theta)·Rz(psi) '
+                 '(polynomial identity, all angles) and maps unit vectors to unit vectors; for an ARBITRARY pixel function the '
+                 'projection returns the sky Stokes vector at the pointed pixel with (Q,U) rotated by 2 psi; the SAT chain '
+                 'polariser∘HWP∘projection returns (I + Q cos 2psi − U sin 2psi)/2 (I/2, (Q cos − U sin)/2 for the other kinds), '
+                 'identically before and after reduction; PᵀP is the diagonal of hit counts because the rotations cancel and '
+                 'indexᵀ∘index is the multiplicity diagonal.  The rotation matrix and per-sample acquisition are compared with '
+                 'the model; an independent NumPy pointing model (Euler rotation, healpy.vec2pix, QU rotation) is the oracle for '
+                 'create_projection_operator, create_acquisition (reduced and unreduced) and PᵀP, in both 64-bit modes.'),
+        'note': ('PARTIAL: arccos, arctan2 and the HEALPix lookup (A5, A8) are not modelled — the map from the rotated direction '
+                 'to the pixel is validated differentially against healpy only (samples within 1e-4 rad of a pixel boundary are '
+                 'skipped). Trusted: Lean kernel + Mathlib + standard axioms.'),
+        'technique': 'Lean 4 proof (ring identities, C12/C15 corollaries) + differential check against an independent pointing model',
+        'design_ref': '§5 C16',
+    },
     'C17': {
         'text': ('Lean theorems: rounding is to the nearest integer (|round p − p| ≤ 1/2, ties to even, integers fixed); '
                  'for any number of dimensions in-map integer coordinates are in bijection with 0..N−1 through the '
